@@ -32,4 +32,7 @@ MUTANTS = [
       "def handle_real_fault_address(addr_type, parser, events):\n    args = events[0].values", "def handle_real_fault_address(addr_type, parser, events):\n    args = events[len(events) - 1].values", "R1"),
     N("C20", "real-fault decoder names the first record", MA,
       "def handle_real_fault_address(addr_type, parser, events):\n    args = events[0].values", "def handle_real_fault_address(addr_type, parser, events):\n    first = events[0]\n    args = first.values"),
+    F("C20", "parse_event_list declines a list whose records carry different thread ids", "traces_parser.py",
+      "        trace_name = self.trace_codes[events[0].eventid]\n        if trace_name not in self.handlers:\n            return None",
+      "        trace_name = self.trace_codes[events[0].eventid]\n        if trace_name not in self.handlers or events[0].tid != events[-1].tid:\n            return None", "R0"),
 ]
